@@ -562,6 +562,13 @@ encodeResponse:
         *error = MATRIXSSL_ERROR;
         return rc;
     }
+    if (ssl->err != SSL_ALERT_NONE)
+    {
+        /* This is always a fatal alert caused by an error in message
+           parsing or processing: flag the session so that it cannot be
+           used any further (as the TLS 1.2 and below decoder does). */
+        ssl->flags |= SSL_FLAGS_ERROR;
+    }
     *len = tmp.end - tmp.start;
     *remaining = 0;
     /* Advance pointer to point to after the data we have read. */
